@@ -803,3 +803,12 @@ func (c *Cluster) MoveBrokerPort(id int32, port int) {
 	c.mu.Unlock()
 	c.Net.Listen(addr, func(sc *memnet.ServerConn) { c.serve(b, sc) })
 }
+
+// SetBrokerVersions is SetVersions for exactly one broker id (0 is a valid broker id here, not "all").
+func (c *Cluster) SetBrokerVersions(broker int32, api int16, min, max int16) {
+	c.mu.Lock()
+	defer c.mu.Unlock()
+	if b := c.brokers[broker]; b != nil {
+		b.Versions[api] = [2]int16{min, max}
+	}
+}
